@@ -443,6 +443,7 @@ func (s *pState) flush(cw *cwriter.Writer, height int, iter <-chan *Bar) error {
 				drop(b, true)
 			} else if s.popCompleted && !frame.noPop {
 				b.priority = s.popPriority
+				b.popping = true
 				s.popPriority++
 				survivors = append(survivors, survivor{b, false})
 			} else if !frame.rmOnComplete {
